@@ -26,7 +26,7 @@ from pyvc.values import SInt, SBool, SStr, SReal, And, Or, Not, Implies, Unsuppo
 from pyvc.interp import PyRaise
 from pyvc.models import GhostLock
 from pyvc.harness import native_call
-from .common import raw
+from .common import harness_connection, lock_name, native_connection, raw
 
 ASSUMPTIONS = [
     '_connect / _start_network_thread are used through their C16 contracts (fresh empty queue, connected; one thread)',
@@ -60,7 +60,7 @@ class AbsSet(object):
 
 def bare_connection(I, **attrs):
     I.override(threading.RLock, lambda I_: GhostLock(), kind='assumed')
-    conn = object.__new__(Connection)
+    conn = harness_connection()
     conn.__dict__.update(attrs)
     return conn
 
@@ -257,7 +257,7 @@ def replay_negotiate(proto):
         # no version information / server closes: the configured default is used, whether or not it is in the allowed set
         for default in (340, 404, 47):
             for how in ('no-version', 'no-protocol', 'eof'):
-                conn = object.__new__(Connection)
+                conn = native_connection()
                 conn.allowed_proto_versions = set(allowed)
                 conn.default_proto_version = default
                 ev = []
@@ -273,7 +273,7 @@ def replay_negotiate(proto):
                     return dict(confirmed=True, call='status reply without a protocol number (%s), allowed=%r, default=%d'
                                 % (how, sorted(allowed)[:4], default),
                                 observed='%s %r; reconnects with %r instead of [{%d}]' % (k, v, ev, default))
-        conn = object.__new__(Connection)
+        conn = native_connection()
         conn.allowed_proto_versions = set(allowed)
         conn.default_proto_version = 340
         ev = []
@@ -342,7 +342,7 @@ class ConnectShape(Unit):
         with_token = bool(E.fork(2, 'token'))
         conn = bare_connection(I, allowed_proto_versions=set(allowed), context=ConnectionContext(protocol_version=47),
                                options=types.SimpleNamespace(address=address, port=port), username=user,
-                               auth_token=FakeToken(prof) if with_token else None, _write_lock=GhostLock(),
+                               auth_token=FakeToken(prof) if with_token else None, **{lock_name(): GhostLock()},
                                reactor=None)
         try:
             I.call(raw(Connection, 'connect'), conn)
@@ -455,7 +455,7 @@ class StatusQuery(Unit):
         hp = {'default': None, 'custom': lambda ms: got_ping.append(ms), 'disabled': False}[hp_mode]
         address = E.new_str('address')
         conn = bare_connection(I, allowed_proto_versions={757}, context=ConnectionContext(protocol_version=757),
-                               options=types.SimpleNamespace(address=address, port=25565), _write_lock=GhostLock(), reactor=None)
+                               options=types.SimpleNamespace(address=address, port=25565), **{lock_name(): GhostLock()}, reactor=None)
         I.call(raw(Connection, 'status'), conn, hs, hp)
         q = list(conn._outgoing_packet_queue)
         E.check('status.queue', len(q) == 2 and type(q[0]) is serverbound.handshake.HandShakePacket and
